@@ -513,32 +513,60 @@ func c12Ops() []c12Op {
 		{"DerefItem", func(x, _ ap.Item) any { return len(ap.DerefItem(x)) }},
 		{"OnObject(read)", func(x, _ ap.Item) any {
 			n := 0
-			ap.OnObject(x, func(o *ap.Object) error { n += len(o.ID) + len(o.To); return nil })
+			ap.OnObject(x, func(o *ap.Object) error {
+				if o != nil { // a nil-like item (the empty IRI) is handed over as a nil pointer (C20)
+					n += len(o.ID) + len(o.To)
+				}
+				return nil
+			})
 			return n
 		}},
 		{"OnActivity(read)", func(x, _ ap.Item) any {
 			n := 0
-			ap.OnActivity(x, func(o *ap.Activity) error { n += len(o.ID); return nil })
+			ap.OnActivity(x, func(o *ap.Activity) error {
+				if o != nil {
+					n += len(o.ID)
+				}
+				return nil
+			})
 			return n
 		}},
 		{"OnIntransitiveActivity(read)", func(x, _ ap.Item) any {
 			n := 0
-			ap.OnIntransitiveActivity(x, func(o *ap.IntransitiveActivity) error { n += len(o.ID); return nil })
+			ap.OnIntransitiveActivity(x, func(o *ap.IntransitiveActivity) error {
+				if o != nil {
+					n += len(o.ID)
+				}
+				return nil
+			})
 			return n
 		}},
 		{"OnActor(read)", func(x, _ ap.Item) any {
 			n := 0
-			ap.OnActor(x, func(o *ap.Actor) error { n += len(o.ID); return nil })
+			ap.OnActor(x, func(o *ap.Actor) error {
+				if o != nil {
+					n += len(o.ID)
+				}
+				return nil
+			})
 			return n
 		}},
 		{"OnLink(read)", func(x, _ ap.Item) any {
 			n := 0
-			ap.OnLink(x, func(o *ap.Link) error { n += len(o.ID); return nil })
+			ap.OnLink(x, func(o *ap.Link) error {
+				if o != nil {
+					n += len(o.ID)
+				}
+				return nil
+			})
 			return n
 		}},
 		{"OnCollectionIntf(read)", func(x, _ ap.Item) any {
 			n := 0
 			ap.OnCollectionIntf(x, func(col ap.CollectionInterface) error {
+				if col == nil || reflect.ValueOf(col).Kind() == reflect.Pointer && reflect.ValueOf(col).IsNil() {
+					return nil
+				}
 				n += int(col.Count()) + len(col.Collection())
 				col.Contains(ap.IRI("https://example.com/none"))
 				return nil
@@ -578,16 +606,47 @@ func c12Ops() []c12Op {
 	}
 }
 
+type c12Bare struct {
+	name string
+	mk   func() ap.Item
+}
+
+func c12BareItems() []c12Bare {
+	iris := func() ap.IRIs {
+		l := make(ap.IRIs, 0, 8) // spare capacity: an append into it is a write
+		return append(l, "https://example.com/1", "", "https://example.com/2", "-", "https://example.com/1")
+	}
+	items := func() ap.ItemCollection {
+		l := make(ap.ItemCollection, 0, 8)
+		return append(l, ap.IRI("https://example.com/1"), nil, &ap.Object{ID: "https://example.com/2", Type: ap.NoteType, To: ap.ItemCollection{ap.IRI("https://example.com/3")}},
+			ap.IRI(""), ap.IRI("https://example.com/1"), (*ap.Object)(nil))
+	}
+	return []c12Bare{
+		{"IRI", func() ap.Item { return ap.IRI("https://example.com/x?b=2&a=1#f") }},
+		{"IRI-empty", func() ap.Item { return ap.IRI("") }},
+		{"IRIs[5, empty and - members]", func() ap.Item { return iris() }},
+		{"*IRIs[5, empty and - members]", func() ap.Item { l := iris(); return &l }},
+		{"*IRIs[0]", func() ap.Item { l := ap.IRIs{}; return &l }},
+		{"*IRIs[2]", func() ap.Item { l := ap.IRIs{"https://example.com/1", "https://example.com/2"}; return &l }},
+		{"ItemCollection[6, nil members]", func() ap.Item { return items() }},
+		{"*ItemCollection[6, nil members]", func() ap.Item { l := items(); return &l }},
+		{"*ItemCollection[0]", func() ap.Item { l := ap.ItemCollection{}; return &l }},
+	}
+}
+
 func c12Sequential(c *engine.Ctx) {
 	ops := c12Ops()
 	var prev []byte // result of the previous encode operation, and a private copy of it
 	var prevCopy []byte
 	var prevWhat string
+	var oneItem func(class, name string, distinct bool, mk func() ap.Item)
 	one := func(r universe.Recipe) {
-		class := "C12|sequential|" + r.Struct.Name
-		c.Do(class, func() string { return "every read-only operation on " + r.String() }, func(t *engine.T) {
-			x, twin := r.Item(), r.Item()
-			t.Distinct(len(r.Sets) > 0)
+		oneItem("C12|sequential|"+r.Struct.Name, r.String(), len(r.Sets) > 0, r.Item)
+	}
+	oneItem = func(class, name string, distinct bool, mk func() ap.Item) {
+		c.Do(class, func() string { return "every read-only operation on " + name }, func(t *engine.T) {
+			x, twin := mk(), mk()
+			t.Distinct(distinct)
 			for _, op := range ops {
 				before := snap.Take(false, x, twin)
 				gBefore := snap.Take(false, c12Globals()...)
@@ -601,7 +660,7 @@ func c12Sequential(c *engine.Ctx) {
 				}
 				if before.Hash != after.Hash {
 					// find out what changed: redo on fresh values with verbose snapshots
-					y, tw2 := r.Item(), r.Item()
+					y, tw2 := mk(), mk()
 					vb := snap.Take(true, y, tw2)
 					op.run(y, tw2)
 					va := snap.Take(true, y, tw2)
@@ -622,6 +681,11 @@ func c12Sequential(c *engine.Ctx) {
 				}
 			}
 		})
+	}
+	// arguments that are not vocabulary structs: bare IRIs, IRI lists and item lists by value and by pointer - with empty and "-"
+	// members, nil members, spare capacity - as every helper that accepts an item accepts them too
+	for _, bi := range c12BareItems() {
+		oneItem("C12|sequential|"+strings.SplitN(bi.name, "[", 2)[0], bi.name, true, bi.mk)
 	}
 	for i := range universe.Structs {
 		s := &universe.Structs[i]
